@@ -12,9 +12,10 @@ import (
 )
 
 type loopClass struct {
-	Kind  string // "range", "counted", "cursor", "geometric", "divisive"
-	Bound string // "const" or "len"
-	Why   string
+	Kind     string // "range", "counted", "cursor", "geometric", "divisive"
+	Bound    string // "const" or "len"
+	Why      string
+	BoundVal ssa.Value // counted loops: the loop-invariant bound
 }
 
 // acyclicWithout: does removing the given blocks break every cycle of l?
@@ -169,7 +170,7 @@ func (p *Prog) classifyLoop(fn *ssa.Function, l *Loop) (loopClass, bool) {
 		if ex, ok := iff.Cond.(*ssa.Extract); ok && ex.Index == 0 {
 			if nx, ok := ex.Tuple.(*ssa.Next); ok && exitsFalse {
 				if r, ok := nx.Iter.(*ssa.Range); ok && !l.Blocks[r.Block()] {
-					return loopClass{"range", "len", "range over " + typeStr(r.X.Type()) + ": one iteration per element"}, true
+					return loopClass{Kind: "range", Bound: "len", Why: "range over " + typeStr(r.X.Type()) + ": one iteration per element"}, true
 				}
 			}
 		}
@@ -232,7 +233,7 @@ func (p *Prog) classifyLoop(fn *ssa.Function, l *Loop) (loopClass, bool) {
 			if _, isC := bound.(*ssa.Const); isC {
 				bk = "const"
 			}
-			return loopClass{kind, bk, "induction variable advances by a positive constant towards a loop-invariant bound; the test is on every cycle"}, true
+			return loopClass{Kind: kind, Bound: bk, Why: "induction variable advances by a positive constant towards a loop-invariant bound; the test is on every cycle", BoundVal: bound}, true
 		}
 		// continue while ind > bound / ind >= bound, the induction variable counting down
 		tryDown := func(ind, bound ssa.Value, op token.Token) (loopClass, bool) {
@@ -267,7 +268,7 @@ func (p *Prog) classifyLoop(fn *ssa.Function, l *Loop) (loopClass, bool) {
 			if last < min {
 				return loopClass{}, false
 			}
-			return loopClass{"counted", "const", "induction variable is lowered by a positive constant towards a constant bound it can pass without wrapping; the test is on every cycle"}, true
+			return loopClass{Kind: "counted", Bound: "const", Why: "induction variable is lowered by a positive constant towards a constant bound it can pass without wrapping; the test is on every cycle"}, true
 		}
 		switch bo.Op {
 		case token.GTR, token.GEQ:
@@ -374,7 +375,7 @@ func (p *Prog) geometricLoop(fn *ssa.Function, l *Loop) (loopClass, bool) {
 					mulBlock = m.Block()
 				}
 				if good && mulBlock != nil {
-					return loopClass{"geometric", "const", "multiplier grows by a constant factor >= 2 and the loop is left once it exceeds a constant"}, true
+					return loopClass{Kind: "geometric", Bound: "const", Why: "multiplier grows by a constant factor >= 2 and the loop is left once it exceeds a constant"}, true
 				}
 			}
 		}
@@ -403,7 +404,7 @@ func (p *Prog) geometricLoop(fn *ssa.Function, l *Loop) (loopClass, bool) {
 					}
 				}
 				if good && n > 0 {
-					return loopClass{"divisive", "const", "an unsigned value is divided by a constant >= 2 on every cycle and the loop is left once it drops below a positive constant"}, true
+					return loopClass{Kind: "divisive", Bound: "const", Why: "an unsigned value is divided by a constant >= 2 on every cycle and the loop is left once it drops below a positive constant"}, true
 				}
 			}
 		}
@@ -427,7 +428,7 @@ func (p *Prog) geometricLoop(fn *ssa.Function, l *Loop) (loopClass, bool) {
 				}
 			}
 			if good {
-				return loopClass{"divisive", "const", "an unsigned value is divided by a constant >= 2 on every cycle and the loop is left when it reaches 0"}, true
+				return loopClass{Kind: "divisive", Bound: "const", Why: "an unsigned value is divided by a constant >= 2 on every cycle and the loop is left when it reaches 0"}, true
 			}
 		}
 	}
@@ -528,7 +529,7 @@ func (p *Prog) cursorLoop(fn *ssa.Function, l *Loop) (loopClass, bool) {
 			continue
 		}
 		if acyclicWithout(l, gb) && acyclicWithout(l, tb) {
-			return loopClass{"cursor", "len", "every cycle reads a value of width >= 1 through the guarded primitive (which advances the offset, bounded by len(data), or sets the sticky error) and leaves the loop when the error is set"}, true
+			return loopClass{Kind: "cursor", Bound: "len", Why: "every cycle reads a value of width >= 1 through the guarded primitive (which advances the offset, bounded by len(data), or sets the sticky error) and leaves the loop when the error is set"}, true
 		}
 	}
 	return loopClass{}, false
